@@ -392,7 +392,8 @@ func (v *Vue) callFunc(ctx *VueContext, fn any, args ...any) (any, error) {
 		// Try to convert the argument to the expected type
 		if argVal.Type().AssignableTo(argType) {
 			in[i] = argVal
-		} else if argVal.Type().ConvertibleTo(argType) {
+		} else if argVal.Type().ConvertibleTo(argType) && !(argType.Kind() == reflect.String && (argVal.CanInt() || argVal.CanUint())) {
+			// (an integer "converts" to a string as a code point; convertValue formats it as a number)
 			in[i] = argVal.Convert(argType)
 		} else {
 			// Try to handle common conversions
